@@ -276,6 +276,24 @@ func c16_1(c *core.Ctx, p *core.Prog) {
 					problems = append(problems, fmt.Sprintf("holds a %s, whose field %s is written after construction (stateful type shared by every stream)", n.Obj().Name(), f))
 					return false
 				}
+				// a repository interface: the values behind it are its implementations
+				if it, isI := n.Underlying().(*types.Interface); isI && it.NumMethods() > 0 {
+					var names []string
+					for tn, f := range mut {
+						tt := tn.Type()
+						if types.Implements(tt, it) || types.Implements(types.NewPointer(tt), it) {
+							names = append(names, tn.Name()+" (field "+f+")")
+						}
+					}
+					sort.Strings(names)
+					if len(names) > 0 {
+						if len(names) > 3 {
+							names = append(names[:3], "…")
+						}
+						problems = append(problems, fmt.Sprintf("holds %s values, an interface implemented by stateful types: %s — an instance kept here is shared by every stream", n.Obj().Name(), strings.Join(names, ", ")))
+					}
+					return false
+				}
 				return true
 			case pp == "sync" || pp == "sync/atomic":
 				problems = append(problems, fmt.Sprintf("holds a %s.%s (shared mutable state)", pp, n.Obj().Name()))
